@@ -3,7 +3,8 @@
 Deciding monitors: SANE on every value returned by every operation, FEAS (accept/refuse decision vs the
 reference feasibility predicates, three-valued around each boundary).  Workloads: mixed histories with
 natural faults, directed boundary probes on both sides of each boundary family, round-number
-exact-capacity sweeps, the same requests as recipe steps."""
+exact-capacity sweeps, the same requests as recipe steps, and create_solution / create_solution_from requests that
+fit by construction or are pushed across a limit (the generators of C05 and C12)."""
 from __future__ import annotations
 
 from .common import shard, run_cases, BASE_ASSUMPTIONS, repo_suite, repo_suite_job, under_density_configs
@@ -37,7 +38,8 @@ def required_buckets(tier):
         req += [f'C03/fill_to/{u}/infeasible:below_current/refused', f'C03/fill_to/{u}/feasible:/accepted']
     req += ['C03/fill_to/L/exact:capacity/accepted', 'C03/fill_to/L/infeasible:capacity/refused',
             'C03/dilute/infeasible:above_current/refused', 'C03/dilute/feasible:/accepted',
-            'C03/probe/B8_recipe', 'C03/probe/B9_zero_measure', 'C03/sweep/']
+            'C03/probe/B8_recipe', 'C03/probe/B9_zero_measure', 'C03/sweep/', 'C03/solutions/create_solution',
+            'C03/solutions/create_solution_from', 'C05/infeasible/', 'C12/infeasible/above_stock']
     return req
 
 
@@ -53,16 +55,34 @@ def plan(tier, seed):
 
 def _plan(tier, seed):
     if tier == 'quick':
-        return shard('history', 160, 6) + shard('boundary', 160, 8) + shard('sweep', 6, 2) + shard('witness', 1, 1)
+        return (shard('history', 160, 6) + shard('boundary', 160, 8) + shard('sweep', 6, 2) + shard('witness', 1, 1)
+                + shard('solutions', 240, 4) + shard('solutions_from', 160, 4))
     return (shard('history', 3000, 20, big=True) + shard('boundary', 4000, 24) + shard('sweep', 60, 6, full=True)
-            + shard('witness', 1, 1))
+            + shard('witness', 1, 1) + shard('solutions', 8000, 16) + shard('solutions_from', 6000, 16))
 
 
 def run_job(job):
     if job['kind'] == 'repo_suite':
         return run_cases(job, repo_suite)
-    fn = {'history': history, 'boundary': boundary, 'sweep': sweep, 'witness': witness}[job['kind']]
+    fn = {'history': history, 'boundary': boundary, 'sweep': sweep, 'witness': witness,
+          'solutions': solutions, 'solutions_from': solutions_from}[job['kind']]
     return run_cases(job, fn)
+
+
+def solutions(rng, case, idx):
+    """create_solution on both sides of its feasibility boundaries (the constructive generator of C05: every request is
+    built from a chosen target mixture, so it fits by construction; the infeasible variants push one value across)."""
+    from pv.props.c05 import constructive
+    from pv.monitors import M
+    M.bucket('C03/solutions/create_solution')
+    constructive(rng, case, idx)
+
+
+def solutions_from(rng, case, idx):
+    from pv.props.c12 import constructive
+    from pv.monitors import M
+    M.bucket('C03/solutions/create_solution_from')
+    constructive(rng, case, idx)
 
 
 def history(rng, case, idx):
